@@ -284,6 +284,14 @@ static void *client_thread(void *arg) {
                          vm_error_string(result));
             }
             vmd_msg_send_error(fd, errbuf);
+        } else {
+            /* The value main returned is the exit status, as in standalone
+             * nano_vm.  Reduced to 0..255 like a process status: the client
+             * treats a negative code as a communication error. */
+            NanoValue main_result = vm_get_result(&vm);
+            if (main_result.tag == TAG_INT) {
+                exit_code = (int32_t)(main_result.as.i64 & 0xFF);
+            }
         }
 
         vmd_msg_send_exit(fd, exit_code);
